@@ -42,8 +42,12 @@ Record sig := {
 
 (* a concrete search class: its name, its identifier fields, its chain of __init__s
    (own or first inherited one first, NonLinearSearch last) *)
+(* sc_base_args: the constructor parameters of the classes ABOVE NonLinearSearch (its bases), which
+   autoconf's get_arguments also collects because NonLinearSearch.__init__ accepts **kwargs; they are
+   never passed on by NonLinearSearch (its super().__init__() call has no arguments) *)
 Record search_class := {
   sc_name : string;
   sc_fields : list string;
-  sc_chain : list sig
+  sc_chain : list sig;
+  sc_base_args : list string
 }.
